@@ -35,6 +35,8 @@ def apply(par, o, v):
         return par.QMetaData({KEYS[1]: v}), {KEYS[1]: v}
     if o == 2:
         return par.QMetaData({KEYS[0]: v, KEYS[2]: 7}), {KEYS[0]: v, KEYS[2]: 7}
+    if o == 7:     # the key is set to None: from then on a lookup gives None again (the most recently set value)
+        return par.QMetaData({KEYS[0]: None}), {KEYS[0]: None}
     # the remaining operations never look at a metadata value: executed concretely (untraced) on the real code
     with nt():
         if o == 3:
@@ -136,15 +138,16 @@ def c16k4(code: int, o3: int, p1: int, p2: int, p3: int, v0: int, v1: int, v2: i
 
 def c16w(code: int, sp: int, v0: int, v1: int, v2: int) -> str:
     """
-    pre: LO <= code < HI and 0 <= code < 27
+    pre: LO <= code < HI and 0 <= code < 64
     pre: 0 <= sp <= 1
     post: (_ == '') != TWIN
     """
     # a linear history of five steps: three QMetaData calls (any of the three kinds each) with another operation between them, so that each one
     # annotates a different node; values unbounded (the solver finds e.g. v0 == v2 != v1: a key that goes back to an earlier value)
-    code = pick(code, max(LO, 0), min(HI, 27))
+    code = pick(code, max(LO, 0), min(HI, 64))
     spacer = [3, 5][pick(sp, 0, 2)]
-    ops = [code // 9, spacer, (code // 3) % 3, spacer, code % 3]
+    QK = [0, 1, 2, 7]
+    ops = [QK[code // 16], spacer, QK[(code // 4) % 4], spacer, QK[code % 4]]
     tick()
     try:
         return hist(5, ops, [0, 1, 2, 3, 4], [v0, 0, v1, 0, v2])
